@@ -26,6 +26,7 @@ RENAME_STRINGS = [
     ("non-ascii-letters", ["naïve", "日本語"]),
     ("non-ascii-symbol", ["a→b", "😀"]),
     ("digit-start", ["1st", "404"]),
+    ("digits-only", ["007", "12345678901234567890123", "0", "00", "1e3"]),
     ("reserved-word", ["delete", "class", "default"]),
     ("dollar", ["$ref"]),
     ("at-sign", ["@type"]),
